@@ -39,7 +39,9 @@ PRES = ['p2wpkh', 'p2pkh', 'p2sh_p2wpkh', 'uncompressed', 'address_obj']
 PARSE_APIS = ['output_parse', 'tx_parse', 'tx_parse_witness_form', 'tx_parse_hex', 'tx_parse_hex_witness_form',
               'tx_parse_bytesio', 'tx_parse_bytesio_witness_form',
               # the network handed over as a Network object (what the service providers and the block reader do)
-              'tx_parse_netobj', 'tx_parse_hex_netobj', 'tx_parse_bytesio_netobj', 'output_parse_netobj']
+              'tx_parse_netobj', 'tx_parse_hex_netobj', 'tx_parse_bytesio_netobj', 'output_parse_netobj',
+              # the transaction inside a block, read by either of the block readers
+              'block_parse', 'block_parse_transactions']
 HEXCHARS = frozenset(b'0123456789abcdefABCDEF')
 VALUE = 100000
 
@@ -102,6 +104,17 @@ def _make_output(api, net, **kw):
         other = wire.TxOut(VALUE + 1, b'\x76\xa9\x14' + bytes(range(20)) + b'\x88\xac')
         tx = wire.Tx(2, [vin], [other, wire.TxOut(VALUE, script)], 0)
         raw = tx.serialize()
+        if api.startswith('block_parse'):
+            import bitcoinlib.blocks as blocks
+            header = (1).to_bytes(4, 'little') + bytes(32) + bytes(range(32)) + (1600000000).to_bytes(4, 'little') + \
+                bytes.fromhex('ffff001d') + bytes(4)
+            rawblock = header + b'\x01' + raw
+            if api == 'block_parse':
+                b = blocks.Block.parse(rawblock, parse_transactions=True, network=net)
+            else:
+                b = blocks.Block.parse(rawblock, network=net)
+                b.parse_transactions()
+            return b.transactions[0].outputs[1]
         if api.startswith('tx_parse_hex'):
             t = lib.tr.Transaction.parse_hex(raw.hex(), strict=False, network=net)
         elif api.startswith('tx_parse_bytesio'):
@@ -284,7 +297,15 @@ def check_wit(ctx, case):
         return
     addr = A.addr_witness(v, prog, net)
     if direction == 'fwd':
-        ok, o = _call(lambda: _observe(_make_output(api, net, address=addr)))
+        given = addr
+        if case.get('form') == 'address_obj':
+            # the same address as an Address object (made by the library's own reader from the string)
+            okp, given = _call(lambda: _lib().keys.Address.parse(addr, network=net))
+            if not okp:
+                ctx.refusal('wit.address_parse.%s' % type(given).__name__)
+                return
+            ctx.klass('wit.fwd.address_obj')
+        ok, o = _call(lambda: _observe(_make_output(api, net, address=given)))
         if not ok:
             if standard:
                 raise Discrepancy('wit.standard_refused', 'address %r on %s raised %r' % (addr, net, o), case)
@@ -512,6 +533,9 @@ def matrix_items():
                         items.append(('wit.%s.v%s.len%d' % (d, '0' if v == 0 else '1' if v == 1 else '2+', n),
                                       {'kind': 'wit', 'net': net, 'witver': v, 'prog': p.hex(), 'dir': d,
                                        'api': 'add_output' if (v + n) % 2 else 'Output'}))
+                    if n in (20, 32):
+                        items.append(('wit.fwd.address_obj', {'kind': 'wit', 'net': net, 'witver': v, 'prog': p.hex(),
+                                                              'dir': 'fwd', 'api': 'Output', 'form': 'address_obj'}))
     for na in nets:
         for nb in nets:
             if na == nb:
@@ -586,7 +610,8 @@ def run(ctx):
     wit = st.fixed_dictionaries({
         'kind': st.just('wit'), 'net': gen.networks(), 'witver': st.integers(0, 16),
         'prog': st.integers(2, 40).flatmap(lambda n: st.binary(min_size=n, max_size=n)).map(bytes.hex),
-        'dir': st.sampled_from(['fwd', 'back']), 'api': st.sampled_from(['Output', 'add_output'])})
+        'dir': st.sampled_from(['fwd', 'back']), 'api': st.sampled_from(['Output', 'add_output']),
+        'form': st.sampled_from(['string', 'string', 'address_obj'])})
     cross = st.sampled_from(TYPES).flatmap(lambda kind: st.fixed_dictionaries({
         'kind': st.just('cross'), 'route': st.sampled_from(['address', 'address', 'address_obj', 'address_parsed',
                                                             'address_lock_script', 'address_public_hash']),
